@@ -9,12 +9,16 @@ pub enum SR {
     Hits(Vec<i64>),
     /// `all`: every bucket that passes `min_doc_count`, in request order (count ties broken by
     /// ascending key); the result shows the first `size`
-    Terms { field: Fd, all: Vec<(i64, u64, Vec<SR>)>, size: usize, order: TOrd },
+    /// `subkey`: when ordered by a metric sub-aggregation, the ordering value of every entry
+    /// of `all` and the direction (ascending)
+    Terms { field: Fd, all: Vec<(i64, u64, Vec<SR>)>, size: usize, order: TOrd, subkey: Option<(Vec<f64>, bool)> },
     /// `absent`: a range aggregation that no segment collector ever instantiated (under a
     /// gap-filled / zero-count parent bucket or on an index without segments): the real result
     /// then has no buckets at all instead of all ranges with count 0
     List(Vec<(i64, u64, Vec<SR>)>, bool),
     Filter(u64, Vec<SR>),
+    /// composite: all buckets in composite-key order; the page shows the first `size`
+    Comp { all: Vec<(Vec<i64>, u64, Vec<SR>)>, size: usize },
 }
 
 #[derive(Clone, Copy, PartialEq, Debug)]
@@ -98,13 +102,14 @@ fn eval_one(n: &Node, docs: &[&MDoc], all_terms: &dyn Fn(Fd) -> Vec<i64>, sem: S
         }
         Agg::Terms { field, size, seg, mdc, order, missing } => {
             let (size, _seg, mdc, order) = terms_defaults(*size, *seg, *mdc, order);
-            let g = group(docs, Sem { per_value: false, rendered_key_order: false }, |d| term_keys(*field, *missing, d));
+            let pass = |k: i64| n.opt.include.as_ref().map(|i| i.matches(*field, k)).unwrap_or(true) && !n.opt.exclude.as_ref().map(|e| e.matches(*field, k)).unwrap_or(false);
+            let g = group(docs, Sem { per_value: false, rendered_key_order: false }, |d| term_keys(*field, *missing, d).into_iter().filter(|k| pass(*k)).collect());
             let mut all: Vec<(i64, u64, Vec<SR>)> = g.iter().map(|(k, ids)| (*k, ids.len() as u64, sub(ids))).collect();
             if mdc == 0 && field.is_str() {
                 // min_doc_count = 0 returns every term of the field (of the whole index)
                 let present: BTreeSet<i64> = all.iter().map(|b| b.0).collect();
                 for k in all_terms(*field) {
-                    if !present.contains(&k) { all.push((k, 0, sub(&vec![]))); }
+                    if !present.contains(&k) && pass(k) { all.push((k, 0, sub(&vec![]))); }
                 }
             }
             all.retain(|b| b.1 >= mdc);
@@ -116,7 +121,16 @@ fn eval_one(n: &Node, docs: &[&MDoc], all_terms: &dyn Fn(Fd) -> Vec<i64>, sem: S
                 TOrd::KeyAsc => all.sort_by(|a, b| a.0.cmp(&b.0)),
                 TOrd::KeyDesc => all.sort_by(|a, b| b.0.cmp(&a.0)),
             }
-            SR::Terms { field: *field, all, size, order }
+            let mut subkey = None;
+            if let Some((name, prop, asc)) = &n.opt.sub_order {
+                // the code sorts by the metric's f64 value (None = f64::MIN); ties: ascending key here
+                let idx = n.subs.iter().position(|c| &c.name == name).expect("order target");
+                let mut keyed: Vec<(f64, (i64, u64, Vec<SR>))> = all.into_iter().map(|b| (metric_value(&b.2[idx], prop).unwrap_or(f64::MIN), b)).collect();
+                keyed.sort_by(|a, b| (if *asc { a.0.total_cmp(&b.0) } else { b.0.total_cmp(&a.0) }).then(a.1 .0.cmp(&b.1 .0)));
+                subkey = Some((keyed.iter().map(|x| x.0).collect(), *asc));
+                all = keyed.into_iter().map(|x| x.1).collect();
+            }
+            SR::Terms { field: *field, all, size, order, subkey }
         }
         Agg::Hist { field, interval, offset, mdc, hard, ext, .. } => {
             let off = offset.unwrap_or(0);
@@ -149,10 +163,53 @@ fn eval_one(n: &Node, docs: &[&MDoc], all_terms: &dyn Fn(Fd) -> Vec<i64>, sem: S
             let g = group(docs, sem, |d| d[field.id()].iter().map(|&v| idx(v)).collect());
             SR::List((0..=cuts.len() as i64).map(|k| match g.get(&k) { Some(ids) => (k, ids.len() as u64, sub(ids)), None => (k, 0, sub(&vec![])) }).collect(), absent)
         }
+        Agg::Composite { sources, size } => {
+            let mut m: BTreeMap<Vec<i64>, Vec<usize>> = BTreeMap::new();
+            for (i, d) in docs.iter().enumerate() {
+                let per: Vec<Vec<i64>> = sources.iter().map(|s| csrc_vals(s, d, sem.per_value)).collect();
+                if per.iter().any(|v| v.is_empty()) { continue; }
+                let mut combos: Vec<Vec<i64>> = vec![vec![]];
+                for vs in &per {
+                    combos = combos.into_iter().flat_map(|c| vs.iter().map(move |v| { let mut c2 = c.clone(); c2.push(*v); c2 })).collect();
+                }
+                for c in combos { m.entry(c).or_default().push(i); }
+            }
+            let mut all: Vec<(Vec<i64>, u64, Vec<SR>)> = m.iter().map(|(k, ids)| (k.clone(), ids.len() as u64, sub(ids))).collect();
+            all.sort_by(|a, b| {
+                for (i, s) in sources.iter().enumerate() {
+                    let c = if s.desc { b.0[i].cmp(&a.0[i]) } else { a.0[i].cmp(&b.0[i]) };
+                    if c != std::cmp::Ordering::Equal { return c; }
+                }
+                std::cmp::Ordering::Equal
+            });
+            SR::Comp { all, size: *size as usize }
+        }
         Agg::Filter { field, code } => {
             let ids: Vec<usize> = (0..docs.len()).filter(|&i| docs[i][field.id()].contains(code)).collect();
             SR::Filter(ids.len() as u64, sub(&ids))
         }
+    }
+}
+
+/// value of a metric result as the code's `get_value` computes it
+pub fn metric_value(s: &SR, prop: &str) -> Option<f64> {
+    match s {
+        SR::Metric { kind, field, count, sum, min, max, .. } => {
+            let fac = field.metric_factor();
+            let sumf = *sum as f64 * fac;
+            let avg = if *count > 0 { Some(sumf / *count as f64) } else { None };
+            match (kind, prop) {
+                (MK::Count, _) | (MK::Stats, "count") => Some(*count as f64),
+                // the final stage orders by the FINAL values, where an empty sum is 0 (not null)
+                (MK::Sum, _) => Some(sumf),
+                (MK::Stats, "sum") => Some(sumf),
+                (MK::Min, _) | (MK::Stats, "min") => min.map(|v| v as f64 * fac),
+                (MK::Max, _) | (MK::Stats, "max") => max.map(|v| v as f64 * fac),
+                (MK::Avg, _) | (MK::Stats, "avg") => avg,
+                _ => None,
+            }
+        }
+        _ => None,
     }
 }
 
@@ -173,6 +230,7 @@ pub fn srs_to_lean(srs: &[SR], ranks: &Ranks) -> String {
             }
             SR::List(bs, _) => format!("L[{}]", buckets(bs, ranks, None)),
             SR::Filter(c, s) => format!("F[{c}:{}]", srs_to_lean(s, ranks)),
+            SR::Comp { .. } => "N".into(),
         }
     }
     match srs.len() {
@@ -189,6 +247,7 @@ pub fn bucket_count_all(srs: &[SR]) -> u64 {
         SR::Terms { all, size, .. } => all[..(*size).min(all.len())].iter().map(|b| 1 + bucket_count_all(&b.2)).sum(),
         SR::List(bs, _) => bs.iter().map(|b| 1 + bucket_count_all(&b.2)).sum(),
         SR::Filter(_, s) => bucket_count_all(s),
+        SR::Comp { all, size } => all[..(*size).min(all.len())].iter().map(|b| 1 + bucket_count_all(&b.2)).sum(),
         _ => 0,
     }).sum()
 }
@@ -200,6 +259,7 @@ pub fn bucket_count(srs: &[SR]) -> u64 {
         SR::List(_, true) => 0,
         SR::List(bs, false) => bs.iter().map(|b| 1 + bucket_count(&b.2)).sum(),
         SR::Filter(_, s) => bucket_count(s),
+        SR::Comp { all, size } => all[..(*size).min(all.len())].iter().map(|b| 1 + bucket_count(&b.2)).sum(),
         _ => 0,
     }).sum()
 }
